@@ -30,7 +30,9 @@ import (
 	"os"
 	"path/filepath"
 	"reflect"
+	"sort"
 	"strings"
+	"unicode"
 
 	"github.com/MontFerret/ferret/pkg/compiler"
 
@@ -171,6 +173,48 @@ func main() {
 				}
 				addAlt(&ks, co, text, "parens+quotes+case+layout", nil)
 			}
+		}
+		cases = append(cases, ks)
+	}
+
+	// ------------------------------------------------ every registered function name in other letter cases
+	// (function and namespace names are case-insensitive: the call resolves to the same function)
+	fnNames := c.RegisteredFunctions()
+	sort.Strings(fnNames)
+	spell := func(n string, how int) string {
+		r := []rune(n)
+		for i := range r {
+			switch how {
+			case 0:
+				r[i] = unicode.ToLower(r[i])
+			case 1:
+				if i%2 == 0 {
+					r[i] = unicode.ToLower(r[i])
+				} else {
+					r[i] = unicode.ToUpper(r[i])
+				}
+			default:
+				if i == 0 {
+					r[i] = unicode.ToUpper(r[i])
+				} else {
+					r[i] = unicode.ToLower(r[i])
+				}
+			}
+		}
+		return string(r)
+	}
+	for _, fn := range fnNames {
+		up := strings.ToUpper(fn)
+		if strings.HasPrefix(up, "IO::") || up == "DOCUMENT" || up == "DOWNLOAD" || up == "PDF" || up == "SCREENSHOT" || strings.HasPrefix(up, "WAIT") || up == "PRINT" || up == "PAGINATION" || up == "NOW" || strings.HasPrefix(up, "RAND") {
+			continue
+		}
+		p := &fqlast.Program{Ret: fqlast.Call(up)}
+		canon := "RETURN " + up + "()"
+		co := run(canon, nil)
+		m.Evaluations++
+		ks := kase{Canon: canon, AST: p.Coq(), Fam: "function-name-case", Out: clip(outcomeKey(co), 200)}
+		for how := 0; how < 3; how++ {
+			addAlt(&ks, co, "RETURN "+spell(fn, how)+"()", "function-name-case", nil)
 		}
 		cases = append(cases, ks)
 	}
